@@ -191,9 +191,26 @@ def run(ctx):
         hits = [p for p in ret_paths(ps) if unwrap_ok(p.end[1]) is not None]
         ctx.floor("D3-LOOKUP", FE, "hit paths", len(hits), 2)
         shapes = set()
+
+        def lookups(p):
+            """[(which map, event)] for the map lookups on a path: through the accessors get_distfile / get_patchfile (D5-ACCESSOR), or
+            directly with IndexMap::get on self.distfiles / self.patchfiles (also through a reference selected once before the loop)"""
+            out = []
+            for e in p.events:
+                if ev_is(e, "Distinfo::get_distfile"):
+                    out.append(("distfiles", e))
+                elif ev_is(e, "Distinfo::get_patchfile"):
+                    out.append(("patchfiles", e))
+                elif ev_is(e, "IndexMap::get") and e.args:
+                    fl = [x[3] for x in subterms(e.args[0]) if x[0] == "field" and x[3] in ("distfiles", "patchfiles") and strip_refs(x[1]) in (("param", 1), ("deref", ("param", 1)))]
+                    if len(set(fl)) == 1:
+                        out.append((fl[0], e))
+            return out
         for p in hits:
-            g = [e for e in p.events if ev_is(e, "Distinfo::get_distfile", "Distinfo::get_patchfile")]
+            g = [e for _, e in lookups(p)]
             key = strip_refs(g[-1].args[1]) if g else None
+            while is_call(key, "PathBuf::as_path", "Deref>::deref", "AsRef", "::as_ref", "Borrow") and call_args(key):
+                key = strip_refs(call_args(key)[0])
             comp = lambda s: s[0] == "field" and isinstance(s[1], tuple) and s[1][0] == "downcast" and is_call(s[1][1], "::next")
             if is_call(key, "Path::join"):
                 a, b = call_args(key)
@@ -222,10 +239,9 @@ def run(ctx):
                         cls_ok = False
             if v is None:
                 continue
-            for e in p.events:
-                if ev_is(e, "Distinfo::get_distfile", "Distinfo::get_patchfile"):
-                    sel.setdefault(v, set()).add(e.name.rsplit("::", 1)[-1])
-        ctx.check(sel.get("Distfile") == {"get_distfile"} and sel.get("Patchfile") == {"get_patchfile"} and cls_ok, "D3-LOOKUP", FE, "map-by-name-class",
+            for m_, e in lookups(p):
+                sel.setdefault(v, set()).add(m_)
+        ctx.check(sel.get("Distfile") == {"distfiles"} and sel.get("Patchfile") == {"patchfiles"} and cls_ok, "D3-LOOKUP", FE, "map-by-name-class",
                   "patch names are looked up among patch entries, other names among distfiles; the class is that of the given path",
                   "find_entry searches %s (class taken from the path argument itself: %s): an entry recorded as a patch must be looked up among the patches and vice versa" % (
                       {k: sorted(v) for k, v in sel.items()}, cls_ok), fn_span(body))
